@@ -2105,7 +2105,9 @@ class Scheduler:
             subtree_tasks = job.calc_subtree_tasks()
 
             # Compute final call_hash and record CallNode.
-            if job.recording_provenance():
+            # If the call hash is already known, the failure was replayed from an equal job,
+            # whose CallNode (with its children) is the record of this call.
+            if job.recording_provenance() and not (job.was_cached and job.call_hash):
                 error_value = ErrorValue(error, error_traceback or Traceback.from_error(error))
                 try:
                     error_hash = self.backend.record_value(error_value)
@@ -2127,6 +2129,7 @@ class Scheduler:
                     subtree_tasks=subtree_tasks,
                 )
 
+            if job.recording_provenance():
                 # Record CallNode context, if present.
                 context = job.get_context()
                 if context:
